@@ -2,7 +2,7 @@
    Statements only; proofs in proofs/AbftDfs.v AbftChain.v AbftSeal.v AbftProcess.v. *)
 From Coq Require Import NArith List.
 From LV Require Import model.VecIndex model.Abft model.AbftRun spec.AbftSpec
-  proofs.AbftDfs proofs.AbftSeal proofs.AbftProcess proofs.AbftChain proofs.AbftSealWitness.
+  proofs.AbftDfs proofs.AbftSeal proofs.AbftProcess proofs.AbftChain proofs.AbftRoots proofs.AbftRooted proofs.AbftSealWitness.
 Import ListNotations.
 Local Open Scope N_scope.
 
@@ -41,6 +41,19 @@ Theorem C02_frames_consecutive : forall cap end_block es st e r bl st',
   elinv st -> process cap end_block es st e = (r, bl, st') -> call_post st bl st'.
 Proof. exact process_frames. Qed.
 
+(* each block's Atropos is a root of the block's frame: it is stored in the root table for exactly that
+   frame (R = the table right after the processed event's own roots were registered; it does not change
+   before a seal).  [V] = every yes-vote of the election that names a root names a stored root of the frame
+   being decided; it holds at genesis / Reset / after a seal and is re-established by every call.
+   ([names_root R f a] reads "a <> zero hash -> a root (f, _, a) is in R": a decided yes-vote always
+   carries the observed root; that the zero hash never occurs is not proved.) *)
+Theorem C02_atropos_is_root : forall cap end_block es st e r bl st',
+  V st -> elinv st -> process cap end_block es st e = (r, bl, st') ->
+  exists R, (forall r0, In r0 (l_roots st) -> In r0 R) /\ all_rooted R bl /\ (sealed_last bl = false -> V st').
+Proof. exact process_atropos_rooted. Qed.
+Theorem C02_V_initially : forall ep v st, V (genesis ep v) /\ V (reset st ep v).
+Proof. intros; split; [apply V_genesis | apply V_reset_state]. Qed.
+
 (* restart: the blocks Bootstrap may emit obey the same numbering *)
 Theorem C02_bootstrap_frames : forall cap end_block es p r bl st',
   bootstrap cap end_block es p = (r, bl, st') ->
@@ -61,3 +74,5 @@ Print Assumptions C02_process_delivers.
 Print Assumptions C02_epoch_starts_unconfirmed.
 Print Assumptions C02_frames_consecutive.
 Print Assumptions C02_bootstrap_frames.
+Print Assumptions C02_atropos_is_root.
+Print Assumptions C02_V_initially.
